@@ -23,10 +23,10 @@ CLAIMED = True
 LEVEL = "proof"
 TECHNIQUE = ("Lean 4 proofs (induction over arbitrary engine-request sequences and over instruction trees, refinement of the "
              "lazily created namespace stack to a plain stack of frames, per-site theorems for the old and the repaired form of "
-             "ten code sites) about a hand model of XSLTEngineImpl's result-event machine and NamespacesHandler; a regex "
+             "eleven code sites) about a hand model of XSLTEngineImpl's result-event machine and NamespacesHandler; a regex "
              "translator (translate/c14_variant.py) selects the model variant the working tree has; correspondence run of "
              "generated stylesheets against the real library with a namespace-aware re-parse and an independent oracle")
-LEVEL_TEXT = ("Machine-checked (Props/C14.lean, 22 theorems): for EVERY sequence of engine requests, and for every instruction "
+LEVEL_TEXT = ("Machine-checked (Props/C14.lean, 24 theorems): for EVERY sequence of engine requests, and for every instruction "
               "tree run by the model's interpreter, no pending start tag holds two attributes with one qname; the invented "
               "ns<N> prefix is unbound in the whole namespace stack (pigeonhole); the lazily created XalanNamespacesStack "
               "refines a plain stack of frames for every push/pop/add history; in every engine state xsl:attribute (with and "
@@ -43,7 +43,7 @@ LEVEL_TEXT = ("Machine-checked (Props/C14.lean, 22 theorems): for EVERY sequence
               "of every real output against what the stylesheet asked for.")
 LEVEL_NOTE = ("Trusted: Lean kernel (leanchecker in the thorough tier); axioms propext/Classical.choice/Quot.sound only; the hand "
               "transcription XalanModel/C14/{Engine,Stylesheet}.lean, validated by the correspondence run and bounded by generator "
-              "coverage; translate/c14_variant.py (normalised-text recognition of ten code sites, cross-checked by the "
+              "coverage; translate/c14_variant.py (normalised-text recognition of eleven code sites, cross-checked by the "
               "correspondence run); QName strings abstracted to (prefix, local) pairs; expat as reference parser; the oracle in "
               "gen/c14_gen.py. There is no single end-to-end theorem 'exec output has the requested names': the theorems are "
               "per engine operation / per code site and about qname uniqueness for whole trees; the interpreter exec is "
@@ -77,6 +77,8 @@ THEOREMS = [
     "XalanModel.Props.C14.no_duplicate_expanded_attr_fixed",
     "XalanModel.Props.C14.literal_attribute_keeps_namespace_fixed",
     "XalanModel.Props.C14.handler_own_bindings_first_fixed",
+    "XalanModel.Props.C14.xml_like_prefix_is_ordinary_fixed",
+    "XalanModel.Props.C14.xml_like_prefix_counterexample",
 ]
 
 XML = G.XML
